@@ -46,7 +46,7 @@ type Scenario struct {
 
 type seqStats struct {
 	failedAdd, globDelRemoved, readdAfterPrune, deleteOnEmpty, handleStale, condDelete, deleteThroughLeaf bool
-	visitStopped, writeAfterStop                                                                          bool
+	visitStopped, writeAfterStop, visitPanicked, condConsulted                                            bool
 }
 
 func (s seqStats) nontrivial() bool {
@@ -60,6 +60,12 @@ func (s seqStats) labelsExtra() []string {
 	}
 	if s.writeAfterStop {
 		l = append(l, "structural-write-after-a-stopped-visit")
+	}
+	if s.visitPanicked {
+		l = append(l, "visit-ended-by-a-panicking-visitor")
+	}
+	if s.condConsulted {
+		l = append(l, "delete-condition-consulted-only-for-matching-leaves(checked)")
 	}
 	return l
 }
@@ -146,8 +152,22 @@ func runSeq(sc *Scenario, paths, patterns [][]string, observeEvery bool) (st seq
 			for k := range m.leaves {
 				before[k] = true
 			}
+			// values of the leaves the path matches, before the delete: the condition is a question about those
+			matchVals := map[int]bool{}
+			for _, k := range m.Query(op.Path) {
+				matchVals[m.leaves[k]] = true
+			}
 			want, wantVals := m.Delete(op.Path, cond)
-			icond := func(v interface{}) bool { return cond == nil || cond(v.(int)) }
+			var strayVal interface{}
+			strayed := false
+			icond := func(v interface{}) bool {
+				if iv, ok := v.(int); !ok || !matchVals[iv] {
+					if !strayed {
+						strayed, strayVal = true, v
+					}
+				}
+				return cond == nil || cond(v.(int))
+			}
 			var got []string
 			switch op.Kind {
 			case "del":
@@ -183,6 +203,12 @@ func runSeq(sc *Scenario, paths, patterns [][]string, observeEvery bool) (st seq
 					return st, fmt.Errorf("op %d %s(%q) returned %v, a query for the same path reports %v", i, op.Kind, op.Path, pathsOf(got), pathsOf(want))
 				}
 			}
+			if op.Kind != "del" {
+				st.condConsulted = true
+				if strayed {
+					return st, fmt.Errorf("op %d %s(%q): the condition was consulted for the value %v, which no leaf matching the path holds (matching values: %v)", i, op.Kind, op.Path, strayVal, matchVals)
+				}
+			}
 			if len(want) > 0 && hasGlob(op.Path) {
 				st.globDelRemoved = true
 			}
@@ -216,6 +242,50 @@ func runSeq(sc *Scenario, paths, patterns [][]string, observeEvery bool) (st seq
 			}
 			if h.l.Value() != op.Val {
 				return st, fmt.Errorf("op %d handle.Update(%d) then Value()=%v", i, op.Val, h.l.Value())
+			}
+		case "qpanic", "wpanic", "wspanic":
+			// a visitor that panics at its Val-th invocation (the caller recovers, as a server recovers a
+			// handler's panic): the panic reaches the caller and the tree stays fully usable
+			stopAt := op.Val
+			if stopAt < 1 {
+				stopAt = 1
+			}
+			calls := 0
+			visitor := func(path []string, _ *ctree.Leaf, _ interface{}) error {
+				calls++
+				if calls >= stopAt {
+					panic("visitor panics")
+				}
+				return nil
+			}
+			matches := len(m.leaves)
+			panicked := func() (p bool) {
+				defer func() {
+					if r := recover(); r != nil {
+						if r != "visitor panics" {
+							panic(r)
+						}
+						p = true
+					}
+				}()
+				switch op.Kind {
+				case "qpanic":
+					matches = len(m.Query(op.Path))
+					t.Query(op.Path, visitor)
+				case "wpanic":
+					t.Walk(visitor)
+				case "wspanic":
+					t.WalkSorted(visitor)
+				}
+				return false
+			}()
+			if panicked != (matches >= stopAt) {
+				return st, fmt.Errorf("op %d %s(%q) with a visitor panicking at invocation %d (%d leaves match): panic reached the caller=%v", i, op.Kind, op.Path, stopAt, matches, panicked)
+			}
+			if panicked {
+				st.visitStopped = true
+				st.visitPanicked = true
+				stopped = true
 			}
 		case "qstop", "wstop", "wsstop":
 			// a visitor that stops the visit: the call returns the visitor's error, has made
